@@ -1245,10 +1245,14 @@ impl Model {
         p.r.other = o;
         p.r.kind = st.kind % 4;
         p.r.form = 1 + st.form % 3;
-        p.r.sink = st.sink % 3;
-        let room = match self.fixed_cap(o) {
-            Some(c) => c.saturating_sub(self.len(o)),
-            None => usize::MAX,
+        p.r.sink = st.sink % 4;
+        let room = if p.r.sink == 3 {
+            usize::MAX
+        } else {
+            match self.fixed_cap(o) {
+                Some(c) => c.saturating_sub(self.len(o)),
+                None => usize::MAX,
+            }
         };
         let n = ((st.n % 4) as usize).min(room);
         p.r.n = n;
@@ -1265,11 +1269,12 @@ impl Model {
             match p.r.sink {
                 0 => self.tags_mut(o).push(t),
                 1 => self.tags_mut(o).insert(0, t),
-                _ => {
+                2 => {
                     // splice(0..0, [lazy]) == insert front
                     let _ = k;
                     self.tags_mut(o).insert(0, t)
                 }
+                _ => self.pool.push(t),
             }
         }
         // after the consumptions the source handle is consumed "normally"
